@@ -461,6 +461,10 @@ def oracle(w, op, outcome, info, prev, cur):
             got = [(kk, tuple(float(t) for t in s[kk].v)) for kk in s]
             if got != [(kk, now.get(kk)) for kk in op[2]]:
                 bad.append(("subset-content", f"{got}", "the requested keys with this vocabulary's vectors"))
+            ks_ = list(s)
+            if len(set(ks_)) != len(ks_) or len(s) != len(ks_) or s.vectors.shape[0] != len(ks_):
+                bad.append(("subset-consistent", f"keys {ks_}, len {len(s)}, {s.vectors.shape[0]} vectors",
+                            "a vocabulary: distinct keys, length, iteration and matrix agree (a repeated name is rejected)"))
     elif k == "pop":
         expected = []
         text = op[2]
